@@ -166,7 +166,7 @@ CHECKS = {
         "exploration",
         "property-based history generation with interval-order oracles: lifecycle call histories with tick-exact offsets on a virtual loop (async servers) and randomized real-thread histories (standalone servers)",
         "Histories of serve_forever/shutdown/server_close/server_activate/connect over up to 3 tasks or threads; refusals only when the overlapping interval that justifies them exists, shutdown returns only after serving stopped, a stopped server serves again unless closed, listeners closed after server_close, nothing deadlocks. Further layers: stop-under-load (shutdown / cancelled serve_forever / cancelled handler scope against a client that keeps the real asyncio stream protocol's buffers filled must take effect within the data already received), "
-        "real-startup-race (stop request 0-30 loop iterations into the start-up of a TCP/UDP server on 1-4 real loopback addresses: no socket descriptor outlives server_close()), real-accept-race (stop request right after 1-3 real peers connected: every accepted connection is closed by the library, not by a finalizer).",
+        "real-startup-race (stop request 0-30 loop iterations into the start-up of a TCP/UDP server on 1-4 real loopback addresses: no socket descriptor outlives server_close()), real-accept-race (stop request right after 1-3 real peers connected: every accepted connection is closed by the library, not by a finalizer; also with a task group that lives in another task). stop-under-load also covers polling handlers, client-side recv_packet() loops and datagram servers under a sustained flow; in-loop also calls server_close() from a default-executor thread while another thread shuts the server down.",
         "Standalone layer: OS-owned schedule with a 30 s watchdog (3x re-run before a hang counts); the two shapes S1 and S2 found by this layer were repaired in /repo and are searched again (DESIGN 7.3/7.4).",
         "DESIGN.md section 3 C18",
     ),
